@@ -459,7 +459,6 @@ func peerEncryptTotality(c *an.Check, construct string) {
 	}
 }
 
-
 // decryptInputUntouched: DecryptWithEd25519 never writes through its ciphertext parameter (no store, copy, in-place
 // cipher call or scrub whose destination aliases it): callers keep the ciphertext (an envelope's grant, a queued signal)
 // and decrypt it again later.
